@@ -1509,7 +1509,10 @@ fn lacking_cause(h: &Hier, p: &Parsed, s: usize, ok: &Labels, t: u16, kinds: &st
         None => unkey(ok),
     };
     let zi = h.zone_for(&attributed, T_A);
-    if !h.zones[zi].secure {
+    let z = &h.zones[zi];
+    // RFC 5155 6: a name without a matching NSEC3 in an opt-out zone may be an insecure delegation
+    let optout_span = matches!(z.denial, Denial::Nsec3 { opt_out: true, .. }) && z.n3_match(&attributed).is_none();
+    if !z.secure || optout_span {
         "cause=rrset-attributed-to-insecure-zone-is-ignored".into()
     } else {
         format!("fault={kinds}")
